@@ -1,5 +1,6 @@
 import Flurry.Lemmas.SeqOps
 import Flurry.Gen.Guards
+import Flurry.Gen.Atomics
 /-! # C13 — `retain` / `retain_force` are the filter
 
 The predicate gets `(key, value payload, value id)` and answers `some true` (keep), `some false`
@@ -87,5 +88,20 @@ example : (guardFns.filter fun r => innerOf r.ty != "" && r.pub && r.param == "s
 example : guardFns.any (fun r => r.ty == "HashMapRef" && r.fn == "retain_force" &&
     callees r == ["HashMap::retain_force"]) = true := by decide
 end Wrappers
+
+/-! ## `replace_node` keeps the condition it was called with
+
+`retain` hands the value its predicate rejected to `replace_node` as `observed_value`; the removal
+is conditional on the entry still holding exactly that value. The sequential model
+(`Seq.replaceNode`) and the conditional removal of the per-key specification keep the condition
+fixed for the whole call, whatever detours the loop takes (forwarded bins, retries after a failed
+re-check). Regenerated from the source: no parameter of `replace_node` is declared `mut`, assigned
+to, or shadowed in its body. -/
+section Condition
+open Flurry.Gen
+
+theorem replace_node_keeps_its_condition : replaceNodeFound = true ∧ replaceNodeParamWrites = [] := by decide
+
+end Condition
 
 end Flurry.C13
